@@ -179,8 +179,11 @@ template <class PP> struct PPCmds {
   using Vec = typename PP::VectorType;
   VM &vm;
   std::map<std::string, std::unique_ptr<PP>> reg;
+  std::map<std::string, const PP *> refs;   // references held by the caller (e.g. `const auto &tr = spline.getTrajectory();`)
   explicit PPCmds(VM &v) : vm(v) {}
   PP &get(const std::string &n) {
+    auto ir = refs.find(n);
+    if (ir != refs.end()) return const_cast<PP &>(*ir->second);
     auto it = reg.find(n);
     if (it == reg.end() || !it->second) vm.die("unknown ppoly " + n);
     return *it->second;
@@ -518,6 +521,11 @@ template <class S> struct SplineCmds {
       else if (how == "copy") pp.reg[n].reset(new PP(s.getTrajectoryCopy()));
       else if (how == "ppoly") pp.reg[n].reset(new PP(s.getPPoly()));
       else pp.reg[n].reset(new PP(s.getPPolyCopy()));
+      return true;
+    }
+    if (c == "sp.trajref") {  // sp.trajref P S : keep a REFERENCE to the exposed trajectory (not a copy)
+      std::string n = vm.next(); S &s = get(vm.next());
+      pp.refs[n] = &s.getTrajectory();
       return true;
     }
     if (c == "sp.basis") {
